@@ -61,8 +61,9 @@ fn c14_replica_sets(n: u32, b: u16) {
     let want = if (rf as u32) < n { rf as usize } else { n as usize };
     assert!(reps.len() == want, "a partition does not have exactly min(rf, N) replicas");
     let (x, y): (usize, usize) = (kani::any(), kani::any());
-    kani::assume(x < y && y < reps.len());
-    assert!(reps[x] != reps[y], "replica set contains a node twice");
+    if x < y && y < reps.len() {
+        assert!(reps[x] != reps[y], "replica set contains a node twice");
+    }
     // a node owns the partition iff it is in the replica set
     let node: u32 = kani::any();
     kani::assume(node < n);
@@ -76,7 +77,7 @@ fn c14_replica_sets(n: u32, b: u16) {
     assert!(owns == listed, "node owns a partition without being in its replica set (or vice versa)");
     // first replica (coordinator order) is the bucket's primary node
     assert!(reps[0] == 100 + ((q % b) as u32 % n), "replica order does not start at the primary node");
-    kani::cover!(want >= 2 && owns);
+    kani::cover!(owns);
 }
 
 /// effective replication factor for LARGE clusters: ownership predicate against wide arithmetic
@@ -105,10 +106,16 @@ fn c16_bucket_to_thread_routing() {
     let ids: [u16; LMAX] = kani::any();
     let len: usize = kani::any();
     kani::assume(len >= 1 && len <= LMAX);
-    // distinct bucket ids
-    let (a, b): (usize, usize) = (kani::any(), kani::any());
-    kani::assume(a < b && b < len);
-    kani::assume(ids[a] != ids[b]);
+    // pairwise distinct bucket ids (all pairs)
+    let mut a = 0;
+    while a < LMAX {
+        let mut b = a + 1;
+        while b < LMAX {
+            kani::assume(ids[a] != ids[b]);
+            b += 1;
+        }
+        a += 1;
+    }
     let threads: u16 = kani::any();
     kani::assume(threads >= 1 && threads as usize <= len);
     let list = &ids[..len];
@@ -125,25 +132,22 @@ fn c16_bucket_to_thread_routing() {
     assert!(tj.unwrap() - t.unwrap() <= (j - i) as u16, "thread ids skip");
     // an unlisted bucket is routed nowhere
     let other: u16 = kani::any();
-    let k: usize = kani::any();
-    kani::assume(k < len);
-    kani::assume(other != ids[k]); // (for all k)
+    let mut k = 0;
+    let mut listed = false;
+    while k < LMAX {
+        if k < len && other == ids[k] { listed = true; }
+        k += 1;
+    }
+    if !listed {
+        assert!(bucket_id_to_thread_id(other, list, threads).is_none(), "an unlisted bucket was routed to a thread");
+    }
     kani::cover!(threads >= 2 && t.unwrap() >= 1);
 }
 
-#[kani::proof]
-#[kani::unwind(@UNW@)]
-fn c16_every_thread_owns_a_bucket_and_unlisted_is_none() {
+/// every writer thread owns at least one bucket and the load is balanced (len, threads are shape parameters)
+fn c16_balance(len: usize, threads: u16) {
     let ids: [u16; LMAX] = [10, 11, 12, 13, 14, 15];
-    let len: usize = kani::any();
-    kani::assume(len >= 1 && len <= LMAX);
-    let threads: u16 = kani::any();
-    kani::assume(threads >= 1 && threads as usize <= len);
     let list = &ids[..len];
-    let t: u16 = kani::any();
-    kani::assume(t < threads);
-    // some bucket is owned by thread t, and owner counts differ by at most one
-    let mut count_t = 0u16;
     let mut minc = u16::MAX;
     let mut maxc = 0u16;
     let mut th = 0u16;
@@ -154,17 +158,27 @@ fn c16_every_thread_owns_a_bucket_and_unlisted_is_none() {
             if bucket_id_to_thread_id(ids[i], list, threads) == Some(th) { c += 1; }
             i += 1;
         }
-        if th == t { count_t = c; }
+        assert!(c >= 1, "a writer thread owns no bucket");
         if c < minc { minc = c; }
         if c > maxc { maxc = c; }
         th += 1;
     }
-    assert!(count_t >= 1, "a writer thread owns no bucket");
     assert!(maxc - minc <= 1, "buckets are not spread evenly over the writer threads");
-    let other: u16 = kani::any();
-    kani::assume(other < 10 || other > 15);
-    assert!(bucket_id_to_thread_id(other, list, threads).is_none(), "an unlisted bucket was routed to a thread");
-    kani::cover!(threads == 4 && len == 6);
+}
+
+#[kani::proof]
+#[kani::unwind(@UNW@)]
+fn c16_every_thread_owns_a_bucket() {
+    // all (len, threads) with threads <= len <= 6: concrete enumeration of a tiny pure function
+    let mut len = 1;
+    while len <= LMAX {
+        let mut t = 1u16;
+        while t as usize <= len {
+            c16_balance(len, t);
+            t += 1;
+        }
+        len += 1;
+    }
 }
 
 @INSTANCES@
